@@ -109,7 +109,7 @@ structure EasterYArgs (a : Args) : Prop where
   freq : a.freq = 0
   interval : 1 ≤ a.interval
   valid : a.dtstart.Valid
-  weekno : WArg a
+  byweekno : a.byweekno = none
   monthday_nz : ∀ x ∈ a.bymonthday.getD [], x ≠ 0
   plain : ∀ w ∈ a.byweekday.getD [], w.2 = 0
   easter : ∃ el, a.byeaster = some el ∧ el ≠ [] ∧ ∀ o ∈ el, -80 ≤ o ∧ o ≤ 250
